@@ -87,6 +87,7 @@ type Exec struct {
 	funcsSeen map[*ssa.Function]bool
 	ghost     map[string]Value
 	goCount   int
+	goSites   map[string]int
 	rtErrType types.Type
 	opaqueErr types.Type
 	pcLen     int
@@ -540,7 +541,7 @@ func (ex *Exec) visit(fr *frame, instr ssa.Instruction) cont {
 		fn, args := ex.prepareCall(fr, &instr.Call)
 		fr.defers = append(fr.defers, &deferred{fn: fn, args: args, pos: instr.Pos()})
 	case *ssa.Go:
-		ex.goCount++ // goroutines are not executed (no scheduler); see DESIGN section 7
+		ex.goStatement(fr, instr)
 	case *ssa.MakeChan:
 		n := ex.concInt(fr.term(instr.Size), 0, 1<<20)
 		fr.env[instr] = &ChanV{cap: int(n), elemT: instr.Type().Underlying().(*types.Chan).Elem()}
